@@ -163,7 +163,7 @@ def collect(rep, parts, module, what="pairing"):
     for pt in parts:
         rep.add(obligations=1, solver_s=pt.cpu_s)
         recs = pt.records
-        distinct = {json.dumps(r.get("p")) for r in recs}
+        distinct = {json.dumps(r.get("id", r.get("p"))) for r in recs}
         rep.add(states=len(distinct), transitions=len(recs))
         rep.cov.setdefault("partitions", []).append(
             {"name": pt.name, "verdict": pt.status, "twin": pt.twin_status, "paths": len(distinct), "cpu_s": round(pt.cpu_s, 1)})
